@@ -5,11 +5,11 @@ use cgmath::{frustum, ortho, perspective, planar, Deg, Matrix4, Ortho, Perspecti
 use num_traits::Float;
 use serde_json::json;
 
-use crate::conv::*;
-use crate::fw::{catch, Case, Clause, Extra, RunCfg};
-use crate::gen::{self, Rng, Tier};
-use crate::sc::{Ck, Rat, Sc};
-use crate::{clause, clause_iv};
+use cgv_core::conv::*;
+use cgv_core::fw::{catch, Case, Clause, Extra, RunCfg};
+use cgv_core::gen::{self, Rng, Tier};
+use cgv_core::sc::{Ck, Rat, Sc};
+use cgv_core::{clause, clause_iv};
 
 fn sorted_pair(rng: &mut Rng, tier: Tier) -> (Rat, Rat) {
     loop {
@@ -137,7 +137,7 @@ fn persp_body<S: Sc>(case: &Case, ck: &mut Ck<S>) {
     let (l, r, b, t) = (-right, right, -top, top);
     frustum_corners(ck, "perspective", m, l, r, b, t, near, far);
     // equals frustum of the symmetric window when near <= far (frustum's own precondition)
-    if S::t_le(&near, &far) == crate::iv::Tri::True && S::t_le(&l, &r) == crate::iv::Tri::True {
+    if S::t_le(&near, &far) == cgv_core::iv::Tri::True && S::t_le(&l, &r) == cgv_core::iv::Tri::True {
         ck.eqm("perspective = frustum(symmetric window)", m4(m), m4(frustum(l, r, b, t, near, far)));
     }
     let rad_code = if deg { Rad::from(Deg(fovy)) } else { Rad(fovy) };
@@ -149,7 +149,7 @@ fn persp_body<S: Sc>(case: &Case, ck: &mut Ck<S>) {
         [p.left, p.right, p.bottom, p.top, p.near, p.far],
         [l, r, b, t, near, far],
     );
-    if S::t_le(&near, &far) == crate::iv::Tri::True && S::t_le(&p.left, &p.right) == crate::iv::Tri::True {
+    if S::t_le(&near, &far) == cgv_core::iv::Tri::True && S::t_le(&p.left, &p.right) == cgv_core::iv::Tri::True {
         ck.eqm("Matrix4::from(to_perspective()) = perspective()", m4(Matrix4::from(p)), m4(m));
     }
     ck.note("perspective", &m);
@@ -282,7 +282,7 @@ pub fn native(cfg: &RunCfg, extra: &mut Extra) {
                 };
                 evals += 1;
                 *kinds.entry(desc.to_string()).or_default() += 1;
-                distinct.insert((which, fovy.to_bits() as u64, near.to_bits() as u64, crate::gen::hash_str($tag)));
+                distinct.insert((which, fovy.to_bits() as u64, near.to_bits() as u64, cgv_core::gen::hash_str($tag)));
                 let bad = match (&res, expect) {
                     (Ok(_), true) => Some(format!("{desc}: expected a panic, got a matrix")),
                     (Err(p), false) => Some(format!("{desc}: unexpected panic {p}")),
